@@ -332,7 +332,7 @@ func collectRanges(t types.Type, L []string, out *[]string) {
 			off += n
 		}
 	case *types.Slice:
-		*out = append(*out, "(<= 0 "+L[0]+")")
+		*out = append(*out, "(<= 0 "+L[0]+")", "(<= "+L[0]+" 4611686018427387904)")
 	case *types.Tuple:
 		off := 0
 		for i := 0; i < u.Len(); i++ {
